@@ -31,7 +31,7 @@ import json
 import os
 import vlib
 
-REPO_HAS_SKIP_FIX = False
+REPO_HAS_SKIP_FIX = True
 
 FINISH = dict(rule='exhaustive TLC model checking of the transmit FIFO (capacity 4/6, periods 0..4, all '
                    'histories, Skip(k) = Tick^k for all k up to the horizon) + TLC trace validation of random '
